@@ -100,6 +100,9 @@ CORPUS = [
     ("defer_get_mut", Struct([F("view", L("u32"), defer=True, get_mut=True, validate=True),
                               F("ro", L("u8"), defer=True, get=True),
                               F("g", L("u8"))])),
+    # two `typ`+`defer` views with the same declared type `()` and different effective types
+    ("defer_two", Struct([F("one", L("u32"), defer=True), F("three", Array(3, L("u8")), defer=True),
+                          F("pair", named(("p", L("u8")), ("q", L("i8"))), defer=True)])),
     ("flat_access", Struct([F("g", Array(2, Struct([F("only", Struct([F("a", L("u8"), get=True, get_mut=True, validate=True),
                                                                         F("d", L("u8"), deny={"serialize": "no ser", "ref_any": "no ref",
                                                                                               "deserialize": "no de", "mut_any": "no mut"})]))],
